@@ -5,6 +5,7 @@ import os
 import random
 from fractions import Fraction as F
 from .. import sx
+from .. import gen
 from ..impl import run_impl
 from ..model import run_model
 
@@ -14,7 +15,10 @@ ASSUMPTIONS = [
     'a failing Python assert is the observable AssertionError <-> model None',
     'Python dictionaries keyed by grid points modelled as key-sorted association lists',
     'Lagrange-interpolating containers and constant-subtraction slices are not modelled (outside the property)',
+    gen.ASSUMPTION,
 ]
+
+GEN_CHAIN = ['Base/PyNum.v', 'Gen/ExtrapolationGen.v', 'Proofs/PyNumFacts.v', 'Proofs/GenExtrapolationEq.v']
 
 GROUPINGS = {1: 'UNIT', 2: 'GROUPED', 3: 'GROUPED_OPTIMIZED'}
 SLICES = {1: 'ROMBERG_DEFAULT', 2: 'TRAPEZOID'}
@@ -839,7 +843,12 @@ def run(chk):
         nonlocal t0
         timing[name] = round(time.time() - t0, 1)
         t0 = time.time()
+    # source-derived model: regenerate coq/Gen/ExtrapolationGen.v from the working tree BEFORE the obligations, so that the
+    # C11_gen_* theorems are re-checked against the coefficient / weight classes of Extrapolation.py as they are now
+    tinfo = gen.run_translator(chk, 'extrapolation', 'ExtrapolationGen.v')
     chk.coq_obligations()
+    gen_problem = gen.gen_diagnosis(chk, tinfo, GEN_CHAIN)
+    gen.report(chk, tinfo, gen_problem, 'C11_gen_*')
     lap('coq')
     rng = chk.rng
     # --- sliced Romberg grids
@@ -897,6 +906,9 @@ def run(chk):
     check_tree(chk, tc, impl['tree'])
     check_factory(chk, fc, impl['factory'])
     check_global(chk, gc, impl['glob'])
+    # a broken translation / equivalence is a broken proof obligation; reported without failing input only when the
+    # correspondence and the oracles above found no concrete input on which the implementation violates the property
+    gen.finish_gen(chk, tinfo, gen_problem)
     lap('others')
 
 
